@@ -34,6 +34,12 @@ def main(argv=None):
     except ModuleNotFoundError:
         print(f"ANALYSIS-ERROR property={pid}: no check registered for this property")
         return 2
+    if a.replay:
+        try:
+            print("REPLAY of recorded violation:", pathlib.Path(a.replay).read_text()[:2000])
+        except OSError as e:
+            print(f"(replay file unreadable: {e})")
+        print("re-deriving the obligation by re-running the check on the current tree:")
     chk = Check(pid, tier=tier, seed=seed, repo=a.repo, replay=a.replay)
     chk.jobs = max(1, a.jobs)
     try:
